@@ -268,6 +268,11 @@ pub enum ConfigError {
     },
     #[error("Invalid '{0}' field for a TCP frontend")]
     InvalidFrontendConfig(String),
+    #[error("invalid health_check for cluster '{cluster_id}': {reason}")]
+    InvalidHealthCheck {
+        cluster_id: String,
+        reason: &'static str,
+    },
     #[error("invalid path {0:?}")]
     InvalidPath(PathBuf),
     #[error("listening address {0:?} is already used in the configuration")]
@@ -2180,6 +2185,18 @@ impl FileClusterConfig {
         // PRE: every frontend that converts cleanly must survive into the built
         // cluster — no frontend is silently dropped during conversion.
         let requested_frontend_count = self.frontends.len();
+        // A health check that `ConfigState::add_cluster` refuses (zero interval,
+        // timeout or threshold, URI without leading '/', control bytes) must be
+        // refused here too: otherwise the generated AddCluster is rejected at
+        // dispatch while the cluster's frontends and backends are still added.
+        if let Some(health_check) = self.health_check.as_ref() {
+            if let Err(reason) = validate_health_check_config(&health_check.to_proto()) {
+                return Err(ConfigError::InvalidHealthCheck {
+                    cluster_id: cluster_id.to_owned(),
+                    reason,
+                });
+            }
+        }
         match self.protocol {
             FileClusterProtocolConfig::Tcp => {
                 let mut has_expect_proxy = None;
